@@ -111,7 +111,7 @@ def run(chk, tier):
             # pre-history: the same cube object has already seen a pooled evaluation that was interrupted
             pr.evaluate("pool", P=2, faults={1, pr.T}, sched_seed=q, switch_prob=0.1, hard=bool(q % 2))
         for s in range(n_sched):
-            P = rnd.choice([1, 2, 2, 3, 4])
+            P = rnd.choice([1, 2, 2, 3, 4, 6, 16])
             script = None
             if s == 0:
                 script = [((w - 1) % P) + 1 for w in rnd.choice(scripts)]
